@@ -457,6 +457,13 @@ class Explorer:
             if isinstance(v, A):
                 return I(discr_of(self.facts, v.adt, v.vi))
             return TOP
+        if deff in ('core::ops::deref::Deref::deref', 'core::ops::deref::DerefMut::deref_mut') and \
+                isinstance(args[0], (R, MR)) and isinstance(args[0].v, (R, MR)):
+            return args[0].v      # reference to a pointer-like value (Pin<&mut T>, &&T): one level off
+        if name in ('core::option::Option::<T>::as_mut', 'core::option::Option::<T>::as_ref',
+                    'core::option::Option::<T>::as_deref', 'core::option::Option::<T>::as_deref_mut') and \
+                isinstance(args[0], (R, MR)):
+            return args[0].v
         if deff in IDENTITY_CALLS or name in IDENTITY_CALLS:
             if deff in ('core::clone::Clone::clone', 'alloc::borrow::ToOwned::to_owned',
                         'alloc::string::ToString::to_string') and isinstance(args[0], R):
@@ -786,6 +793,19 @@ class Explorer:
                     if isinstance(ch, U) and ch.ch:
                         flds = tuple(sorted((k[1], c) for k, c in ch.ch if k[0] == 'f'))
                         new = A(adt, vi, vn[vi], flds)
+                    if cur.tag:
+                        nf = self.nfields(new)
+                        have = dict(new.fields)
+                        if nf:
+                            ad = self.facts.adts.get(adt)
+                            fl = []
+                            for i in range(nf):
+                                if i in have:
+                                    fl.append((i, have[i]))
+                                else:
+                                    fname = ad['variants'][vi]['fields'][i][0] if ad else str(i)
+                                    fl.append((i, sym('%s.%s' % (cur.tag, fname))))
+                            new = A(adt, vi, vn[vi], tuple(fl))
                     root = env.get(loc, TOP)
                     # write through references: rebuild along projs
                     env[loc] = self._write_through(root, projs, new)
@@ -828,6 +848,15 @@ class Explorer:
                 for l, v in list(e2.items()):
                     if isinstance(v, MR) and (v.frame, v.loc, v.projs) == (m.frame, m.loc, m.projs):
                         e2[l] = nm
+            dnm = rec['locals'][dloc][1] if not dprojs else None
+            if dnm and dnm in self.force_domain and not ground(val):
+                for dv in self.force_domain[dnm]:
+                    e3 = dict(e2)
+                    e3[dloc] = dv
+                    d3 = dict(dsrc)
+                    d3.pop(dloc, None)
+                    stack.append((target, 0, e3, ev, d3, visits))
+                return
             if self.tag_named and not dprojs and isinstance(val, U) and val.tag is None and not val.ch:
                 nm = rec['locals'][dloc][1]
                 if nm:
